@@ -1,6 +1,7 @@
 package main
 
 import (
+	"bytes"
 	"encoding/json"
 	"fmt"
 	"reflect"
@@ -522,6 +523,44 @@ func runDesc(line []byte, rec *recorder) {
 					e["got"] = projDescriptors(got)
 				}
 				rec.ev(e)
+				// ... and with the reserved bytes of a service of a reserved data_service_id in another number than the one byte this library
+				// writes (0, 2 or 3 - the service's length byte says how many): the services behind it stay where they are
+				alt2 := append([]byte(nil), wb[:4]...)
+				changed := false
+				for p := 4; p+1 < len(wb); {
+					id, n := wb[p], int(wb[p+1])
+					if !(id == 1 || id == 2 || id == 4 || id == 5 || id == 6 || id == 7) && n == 1 {
+						k := r.pick(0, 2, 3)
+						alt2 = append(append(alt2, id, byte(k)), bytes.Repeat([]byte{0xff}, k)...)
+						changed = true
+					} else {
+						alt2 = append(alt2, wb[p:p+2+n]...)
+					}
+					p += 2 + n
+				}
+				if changed && len(alt2)-4 <= 255 {
+					alt2[3] = byte(len(alt2) - 4)
+					alt2[0], alt2[1] = 0xf0|byte((len(alt2)-2)>>8), byte(len(alt2)-2)
+					var got2 []*astits.Descriptor
+					var off2 int
+					var gerr2 error
+					if pn := safeCall(func() { got2, off2, gerr2 = astits.VerifParseDescriptors(alt2) }); pn != nil {
+						gerr2 = fmt.Errorf("panic %v", pn)
+					}
+					if gerr2 == nil && off2 == len(alt2) {
+						off2 = len(wb) // (the offset rule compares with the reference encoding's length)
+					}
+					e2 := M{"ev": "dvec", "class": "vbidata-reserved-service-bytes", "ds": projDescriptors([]*astits.Descriptor{d}), "wb": ints(wb), "wn": len(wb), "werr": "nil",
+						"got": []M{}, "gerr": errStr(gerr2), "goff": off2, "calc": len(wb) - 2}
+					if gerr2 == nil {
+						pg := projDescriptors(got2)
+						if len(pg) == 1 {
+							pg[0]["len"] = int(wb[3]) // (this vector's descriptor_length differs from the reference encoding's on purpose)
+						}
+						e2["got"] = pg
+					}
+					rec.ev(e2)
+				}
 			}
 		}
 	case "loops":
